@@ -143,15 +143,34 @@ func c18CollectGraphOps(g *c18Graph, cfg *c18Cfg) (ops []*c18Op, deferred []*c18
 						unknown = append(unknown, full+" in a go statement")
 						return
 					}
-					op := &c18Op{Call: call, Fn: full, Kind: m.kind, Path: tt.Term(call.Call.Args[m.path]), Fr: fr, Nodes: nodes, cfg: cfg}
-					if m.aux >= 0 {
-						op.Aux = tt.Term(call.Call.Args[m.aux])
+					// one op per distinct path the call acts on (the same instruction may be reached with
+					// different return sites of an earlier helper remembered, i.e. with different values)
+					var group []*c18Op
+					for _, n := range nodes {
+						tt.enterNode(n)
+						path := tt.Term(call.Call.Args[m.path])
+						var aux *c18T
+						if m.aux >= 0 {
+							aux = tt.Term(call.Call.Args[m.aux])
+						}
+						tt.leave()
+						var op *c18Op
+						for _, q := range group {
+							if q.Path.String() == path.String() && (aux == nil || q.Aux.String() == aux.String()) {
+								op = q
+							}
+						}
+						if op == nil {
+							op = &c18Op{Call: call, Fn: full, Kind: m.kind, Path: path, Aux: aux, Fr: fr, cfg: cfg}
+							if m.data >= 0 {
+								op.Data = call.Call.Args[m.data]
+							}
+							op.idx = len(ops)
+							ops = append(ops, op)
+							group = append(group, op)
+						}
+						op.Nodes = append(op.Nodes, n)
 					}
-					if m.data >= 0 {
-						op.Data = call.Call.Args[m.data]
-					}
-					op.idx = len(ops)
-					ops = append(ops, op)
 					return
 				}
 				sig := obj.Type().(*types.Signature)
@@ -191,16 +210,23 @@ func c18OpEdges(g *c18Graph, ops []*c18Op) (map[*c18Edge]c18EdgeBits, map[*c18Op
 			if !e.hasFact {
 				continue
 			}
+			// cmp.Or(e1, e2, …) / errors.Join(e1, e2, …): nil exactly when every argument is nil
+			vals := []ssa.Value{e.factVal}
+			if parts := c18ErrCombinator(e.factVal); parts != nil {
+				vals = parts
+			}
 			for _, o := range ops {
-				if o.Fr == e.factFr && errv[o] != nil && errv[o] == e.factVal {
-					b := bits[e]
-					if e.factNil {
-						b.succ |= 1 << uint(o.idx)
-					} else {
-						b.fail |= 1 << uint(o.idx)
+				for _, v := range vals {
+					if o.Fr.rootF() == e.factFr.rootF() && errv[o] != nil && errv[o] == v {
+						b := bits[e]
+						if e.factNil {
+							b.succ |= 1 << uint(o.idx)
+						} else {
+							b.fail |= 1 << uint(o.idx)
+						}
+						bits[e] = b
+						tested[o] = true
 					}
-					bits[e] = b
-					tested[o] = true
 				}
 			}
 		}
@@ -238,7 +264,7 @@ func c18CheckWriterCore(p *Prog, r *Report, fn *ssa.Function, name string, cfg *
 		relMemo[f] = v
 		return v
 	}
-	g := c18BuildGraph(p, tt, fn, relevant, c18FuncFields(p, tkey), c18IfaceFields(p, tkey))
+	g := c18BuildGraph(p, tt, fn, relevant, c18FuncFields(p, tkey), c18IfaceFields(p, tkey), stateTypes)
 	ops, deferred, unknown := c18CollectGraphOps(g, cfg)
 	sort.Strings(unknown)
 	for i, u := range unknown {
@@ -475,7 +501,7 @@ func c18CheckWriterCore(p *Prog, r *Report, fn *ssa.Function, name string, cfg *
 		if !ok || fieldIDOfAddr(fa).String() != cfg.Prev {
 			continue
 		}
-		tt.enter(n.fr)
+		tt.enterNode(n)
 		t := tt.Term(st.Val)
 		tt.leave()
 		if t.Op == "call" && t.Lit == "addr" && len(t.Args) == 1 && t.Args[0].String() == vdir.String() && !cfg.prevIsString {
@@ -639,6 +665,10 @@ func c18CheckWriterCore(p *Prog, r *Report, fn *ssa.Function, name string, cfg *
 			continue
 		}
 		if !reachesPub(o) {
+			if isLink {
+				r.Violation(R.Order, name+" "+o.desc()+" must succeed before publish", pos(o.Call),
+					"the symlink that creates the source of the publishing rename is only made after that rename (no path leads from it to the rename): the rename has nothing to move — or moves a stale link left by an earlier call — and every Write fails or publishes the wrong directory")
+			}
 			continue // after the publish: handled below
 		}
 		construct := name + " " + o.desc() + " must succeed before publish"
@@ -820,7 +850,7 @@ func c18FindFileLoop(g *c18Graph, ops []*c18Op, vdir *c18T) *c18Loop {
 		if _, ok := rg.X.Type().Underlying().(*types.Map); !ok {
 			continue
 		}
-		g.tt.enter(n.fr)
+		g.tt.enterNode(n)
 		rt := g.tt.Term(rg.X)
 		g.tt.leave()
 		if rt.Op != "param" {
@@ -892,7 +922,7 @@ func c18FindFileLoop(g *c18Graph, ops []*c18Op, vdir *c18T) *c18Loop {
 		if !ok {
 			continue
 		}
-		g.tt.enter(n.fr)
+		g.tt.enterNode(n)
 		rt := g.tt.Term(m)
 		g.tt.leave()
 		if rt.Op != "param" {
@@ -959,7 +989,7 @@ func c18CheckLoop(g *c18Graph, r *Report, name string, cfg *c18Cfg, loop *c18Loo
 	}
 	dataT := "?"
 	if w.Data != nil {
-		tt.enter(w.Fr)
+		tt.enterNode(w.Nodes[0])
 		dataT = tt.Term(w.Data).String()
 		tt.leave()
 	}
@@ -1316,6 +1346,9 @@ func c18StateTypes(p *Prog, tkey string) map[string]bool {
 			}
 			for k := 0; k < st.NumFields(); k++ {
 				ft := types.Unalias(st.Field(k).Type())
+				if pt, ok := ft.Underlying().(*types.Pointer); ok {
+					ft = types.Unalias(pt.Elem()) // a sub-struct held by pointer
+				}
 				if n, ok := ft.(*types.Named); ok {
 					if _, isStruct := n.Underlying().(*types.Struct); isStruct {
 						key := namedKey(n)
@@ -1397,4 +1430,33 @@ func c18ThroughPureCall(v ssa.Value) ssa.Value {
 		v = c18Root(ret.Results[idx])
 	}
 	return v
+}
+
+// c18ErrCombinator: v = cmp.Or(e1, …) or errors.Join(e1, …): the combined error values.
+func c18ErrCombinator(v ssa.Value) []ssa.Value {
+	call, ok := v.(*ssa.Call)
+	if !ok {
+		return nil
+	}
+	obj := calleeObj(call)
+	if obj == nil || obj.Pkg() == nil {
+		return nil
+	}
+	switch obj.Pkg().Path() + "." + obj.Name() {
+	case "cmp.Or", "errors.Join":
+	default:
+		return nil
+	}
+	if len(call.Call.Args) != 1 {
+		return nil
+	}
+	els, ok := c18Varargs(call.Call.Args[0])
+	if !ok {
+		return nil
+	}
+	var out []ssa.Value
+	for _, e := range els {
+		out = append(out, c18Root(e))
+	}
+	return out
 }
